@@ -239,6 +239,12 @@ package parse
 //@   maypanic
 //@   assert @mapupdate:map[string]*sysl.Attribute [taken-over-arrays-are-owned] stored != v || !isArrayAttr(v)
 
+// Names, payloads and paths are taken from the text as written: only %XX escapes are decoded (a text without '%'
+// reaches the trimming step unchanged — in particular '+' stays '+').
+//@ func MustUnescape
+//@   maypanic
+//@   assert @call:strings.TrimSpace [only-percent-escapes-are-decoded] !contains(str, "%") ==> arg0 == str
+
 // Enum values are parsed as full 64-bit decimal numbers.
 //@ func (*TreeShapeListener).EnterEnum
 //@   requires ctx != nil && ctx.BaseParserRuleContext != nil
